@@ -132,9 +132,11 @@ def base_index(l):
 
 
 class Sim:
-    def __init__(self, fx, f):
+    def __init__(self, fx, f, comp_param=None, depth=0):
         self.fx = fx
         self.f = f
+        self.comp_param = comp_param    # inlined helper: id of the parameter bound to this.components
+        self.depth = depth
         self.blocks = {b["id"]: b for b in f["blocks"]}
         self.results = []      # (state, exit loc)
         self.unaccounted = []
@@ -146,6 +148,8 @@ class Sim:
         if isinstance(e, dict) and e.get("k") == "member" and e.get("field") in CHAIN and e.get("cls") == "ada::url_components":
             b = X.strip(e["base"])
             if X.path(b) in ("this.components",):
+                return e["field"]
+            if self.comp_param is not None and isinstance(b, dict) and b.get("k") == "ref" and b.get("id") == self.comp_param:
                 return e["field"]
         return None
 
@@ -255,7 +259,7 @@ class Sim:
             return "tie"
         return "before"
 
-    def apply_insert(self, st, P, n, what):
+    def apply_insert(self, st, P, n, what, lead=None):
         """returns list of successor states (ties branch)"""
         st.edits += 1
         st.trace.append("insert %s bytes at %s (%s)" % (n, P, what))
@@ -283,7 +287,10 @@ class Sim:
             if r == "after":
                 moves.append(o)
             elif r == "tie":
-                ties.append(o)
+                # search_start / hash_start hold the index of the delimiter byte itself ('?' / '#'): bytes inserted
+                # exactly there land in front of the delimiter, so the boundary moves -- unless the inserted text is
+                # that delimiter (the boundary is being created there)
+                (moves if o in ("search_start", "hash_start") and o in st.present and DELIMS.get(lead) != o else ties).append(o)
         for o in moves:
             st.ref[o] = st.ref[o] + n
         if not ties:
@@ -403,10 +410,11 @@ class Sim:
                         ln = self.ev(a[1], st)
                     else:
                         raise Abandon("insert form")
-                    outs = self.apply_insert(st, P, ln, what)
                     lit = X.strip(a[1]) if len(a) == 2 else None
                     while isinstance(lit, dict) and lit.get("k") == "construct" and len(lit.get("args", [])) == 1:
                         lit = X.strip(lit["args"][0])
+                    lead = lit["v"][:1] if isinstance(lit, dict) and lit.get("k") == "lit" and lit.get("str") and lit.get("v") else None
+                    outs = self.apply_insert(st, P, ln, what, lead=lead)
                     if isinstance(lit, dict) and lit.get("k") == "lit" and lit.get("str") and lit.get("v") in DELIMS:
                         for s2 in outs:
                             s2.marks.append([lit["v"], P])
@@ -434,12 +442,45 @@ class Sim:
                 return [st]
             if nm == "replace_and_resize" and n.get("method"):
                 return [st]          # value and effect handled where the result is bound (decl / assignment)
+            inl = self.inline_helper(n, st)
+            if inl is not None:
+                return inl
             if n.get("method") and (n.get("cls") or "").startswith("ada::url_aggregator") and not n.get("const_method") \
                     and (n.get("recv") is None or X.path(n["recv"]) in ("this", None)):
                 st.trace.append("call %s (accounted on its own)" % nm)
                 st.havoc()
                 return [st]
         return [st]
+
+    def passes_components(self, a):
+        a = X.strip(a)
+        if X.path(a) == "this.components":
+            return True
+        return self.comp_param is not None and isinstance(a, dict) and a.get("k") == "ref" and a.get("id") == self.comp_param
+
+    def inline_helper(self, n, st):
+        """a free helper that receives the components record by reference is simulated in place"""
+        args = n.get("args", [])
+        idx = [i for i, a in enumerate(args) if self.passes_components(a)]
+        if not idx or n.get("method"):
+            return None
+        callee = self.fx.fn(n.get("callee")) if n.get("callee") else None
+        if callee is None or not callee.get("blocks") or self.depth > 3 or len(idx) != 1:
+            raise Abandon("helper %s receives the components and cannot be simulated" % n.get("name"))
+        params = callee.get("params", [])
+        if len(params) != len(args):
+            raise Abandon("helper %s: parameter count" % n.get("name"))
+        sub = Sim(self.fx, callee, comp_param=params[idx[0]]["id"], depth=self.depth + 1)
+        st0 = st.copy()
+        for i, (p_, a) in enumerate(zip(params, args)):
+            if i == idx[0]:
+                continue
+            st0.env[p_["id"]] = self.ev(a, st)
+        st0.trace.append("call %s (simulated in place)" % n.get("name"))
+        sub.run(entry_state=st0)
+        if sub.unaccounted:
+            raise Abandon("inside %s: %s" % (n.get("name"), sub.unaccounted[0]))
+        return [r for r, _loc in sub.results]
 
     def bind_rr(self, st, call):
         """replace_and_resize(start, end, input): the edit and its return value"""
@@ -518,10 +559,10 @@ class Sim:
         return out
 
     # ---- paths ------------------------------------------------------------------------------------
-    def run(self, limit=4000):
+    def run(self, limit=4000, entry_state=None):
         entry = self.f["entry"]
-        st0 = State()
-        for (a, b) in ENTRY_EQUAL.get(self.f["qname"], ()):
+        st0 = entry_state if entry_state is not None else State()
+        for (a, b) in (ENTRY_EQUAL.get(self.f["qname"], ()) if entry_state is None else ()):
             st0.code[a] = st0.code[b]
             st0.ref[a] = st0.ref[b]
         work = [(entry, st0, frozenset())]
@@ -604,6 +645,9 @@ class Sim:
         return True
 
 
+STRICT_UNWRITTEN = True
+
+
 def check(ctx, fx, editors, rule="S6"):
     nfun = npath = nedit = nun = 0
     for f, bind in editors:
@@ -634,7 +678,7 @@ def check(ctx, fx, editors, rule="S6"):
             best = None
             for st in sts:
                 bad = [(o, st.code[o], st.ref[o]) for o in POSITIONAL
-                       if o in st.written and o not in st.omitted and st.code[o] != st.ref[o]]
+                       if (o in st.written or STRICT_UNWRITTEN) and o not in st.omitted and st.code[o] != st.ref[o]]
                 for ch, pos in st.marks:
                     o = DELIMS[ch]
                     if pos is not None and o not in st.omitted and st.code[o] != pos:
